@@ -29,11 +29,15 @@ def run(ctx):
     admit = [f for n, f in F.fns.items() if f.rec.get("ret", "").endswith("command::CommandStatus") and any(t.get("rpath") in charge_fns for b, t in f.calls())]
     ctx.floor("R06.1", "admission functions", len(admit), 1)
     evict_fns = set()
+    hook_param = {}
     # ---- R06.1 ----------------------------------------------------------------------------------
     status_fns = {n for n, g in F.fns.items() if g.rec.get("ret", "").endswith("CommandStatus") and g.kind != "Closure"}
     for f in admit:
         ctx.touch(f)
-        kd = ("param", 2)
+        kd = kd_param(f)
+        if kd is None:
+            ctx.bad("R06.1", "%s|admission-table" % f.name, "the admission function takes the incoming key's description", f.where())
+            continue
         w = ("field", kd, "weight")
         paths = ipaths(F, f, stop=lambda n, me=f.name: n in charge_fns or n in dec_fns or n in M.qnames or (n in status_fns and n != me), depth=3)
         ctx.analysed["paths"] += len(paths)
@@ -75,8 +79,12 @@ def run(ctx):
                 evict_fns.add(ev[0].callee)
                 eres = ev[0].res
                 eargs = list(ev[0].args)
-                if not (M.is_query_field(eargs[1], w, "0") and eargs[2] == kd):
+                if not (any(M.is_query_field(a_, w, "0") for a_ in eargs) and kd in eargs):
                     bad.append(("eviction loop must receive the available space just queried and the incoming description", p))
+                # the caller's removal hook: the admission function's other non-self parameter handed on
+                for i_, a_ in enumerate(eargs):
+                    if a_[0] == "param" and a_ != kd and a_[1] != 1:
+                        hook_param.setdefault(ev[0].callee, set()).add(i_ + 1)
                 v = p.variant_of(eres)
                 acc = v == ("Accepted",)
                 if (len(adds) == 1) != acc or len(adds) > 1:
@@ -96,7 +104,10 @@ def run(ctx):
         # a step of the loop extracted into a private helper (`evict(..)`, `status_when_exhausted(..)`) is the loop's own
         f = inline.expand(F, F.fn(en), lambda n_: M.keep_in_expansion(n_) or n_ in pop_fns or n_ in dec_fns)
         ctx.touch(f)
-        kd = ("param", 3)
+        kd = kd_param(f)
+        if kd is None:
+            ctx.bad("R06.2", "%s|loop-guard" % en, "the eviction loop takes the incoming key's description", f.where())
+            continue
         w = ("field", kd, "weight")
         heads = back_edge_heads(f)
         guards = [(b, expr, tt, ft) for b, expr, tt, ft in bool_branches(f) if expr[0] == "binop" and expr[1] == "Lt" and strip_site(expr[3]) == w and M.avail_ok(f, expr[2], w) is not None]
@@ -126,9 +137,10 @@ def run(ctx):
         if okc:
             cb, cexpr, c_true, c_false = cmps[0]
             inc = cexpr[2]
-            okc = cexpr[1] == "Lt" and strip_site(cexpr[3]) == strip_site(("field", victim, "estimated_frequency")) and inc[0] == "call" and strip_site(inc[2][1]) == ("field", kd, "hash")
+            tgt_, harg_ = call_target(F, f, inc)
+            okc = cexpr[1] == "Lt" and strip_site(cexpr[3]) == strip_site(("field", victim, "estimated_frequency")) and tgt_ is not None and strip_site(harg_) == ("field", kd, "hash")
             if okc:
-                est_callee = inc[1]
+                est_callee = tgt_
         ctx.check(okc, "R06.2", "%s|strict-frequency-comparison" % en,
                   "the put is refused exactly when incoming estimate < victim estimate (strict), the incoming estimate being that of the incoming key's hash", f.where(cmps[0][0]) if cmps else f.where(),
                   fmt(cmps[0][1]) if cmps else "no comparison against the victim's estimate")
@@ -150,7 +162,8 @@ def run(ctx):
         if okd:
             db, dt = dels[0]
             okd = f.edge_dominates((cb, c_false), db) and f.edge_dominates((gb, g_true), db) and \
-                strip_site(f.op_origin(dt["args"][1])) == strip_site(("field", victim, "id")) and f.op_origin(dt["args"][2]) == ("param", 4)
+                strip_site(f.op_origin(dt["args"][1])) == strip_site(("field", victim, "id")) and \
+                f.op_origin(dt["args"][2])[0] == "param" and {f.op_origin(dt["args"][2])[1]} == hook_param.get(en)
         ctx.check(okd, "R06.2", "%s|evict-victim-only-under-pressure" % en,
                   "a victim is released only inside the loop (available < weight) and only when its estimate does not exceed the incoming one; the id released is the victim's; the caller's removal hook is passed on", f.where(dels[0][0]) if dels else f.where())
         # after a release the loop re-tests with a fresh query
@@ -159,7 +172,7 @@ def run(ctx):
             ctx.check(bool(fresh) and f.must_pass([db], fresh, targets=[gb]), "R06.2", "%s|refresh-after-release" % en,
                       "after releasing a victim the available space is queried again before the guard is re-tested", f.where(db))
         # None edge: accept iff it fits now ; loop exit: Accepted  (shared with C01's admits summary)
-        ctx.check(M.admits(f, ("field", ("param", 3), "weight")), "R06.2", "%s|accept-iff-space" % en,
+        ctx.check(M.admits(f, w), "R06.2", "%s|accept-iff-space" % en,
                   "every Accepted result is returned under an established 'available >= weight' (loop exit or explicit query), in particular when the sample runs empty", f.where())
         exit_ok = True
         for p in enum_paths(f):
@@ -221,7 +234,8 @@ def run(ctx):
                 if o[0] == "agg" and o[1] in F.fns and F.fns[o[1]].kind == "Closure":
                     c = F.fns[o[1]]
                     r = c.origin_local(0)
-                    ok = est_callee is not None and r[0] == "call" and ultimate_callee(F, r[1]) == ultimate_callee(F, est_callee) and r[2][-1] == ("param", 2)
+                    tgt_, harg_ = call_target(F, c, r)
+                    ok = est_callee is not None and tgt_ is not None and tgt_ == est_callee and harg_ == ("param", 2)
                     ctx.check(ok, "R06.4", "%s|sample-uses-same-estimator" % c.name,
                               "the estimator handed to the sampler is the same function that estimates the incoming key", c.where(), fmt(r))
                     sample_ctor_calls.append(c.name)
@@ -380,6 +394,49 @@ def cmp_values(a, b, signs):
         s = signs[a[2]]
         return s if a[1] == ("param", 1) else -s
     raise ValueError("comparator operand not understood: %s vs %s" % (fmt(a)[:40], fmt(b)[:40]))
+
+
+def kd_param(f):
+    """the parameter carrying the incoming key's description (by type, wherever it sits in the parameter list)"""
+    ks = [i for i in range(1, f.argc + 1) if "KeyDescription<" in f.locals[i]["ty"]]
+    return ("param", ks[0]) if len(ks) == 1 else None
+
+
+def call_target(F, fn, r, depth=0):
+    """(innermost local function, argument) a call expression of fn ends up in: a direct call, or a call of a callable
+    value (a closure that only forwards its argument, a captured callable, a parameter bound to the same callable at every
+    call site); (None, None) when unknown"""
+    if not (isinstance(r, tuple) and r and r[0] == "call") or depth > 6:
+        return None, None
+    if r[1] in F.fns and r[2]:
+        return ultimate_callee(F, r[1]), r[2][-1]
+    if r[1].startswith(("std::ops::Fn", "<std::boxed::Box<F, A> as std::ops::Fn")) and len(r[2]) == 2 and r[2][1][0] == "agg" and len(r[2][1][3]) == 1:
+        return callable_target(F, fn, r[2][0], depth + 1), r[2][1][3][0][1]
+    return None, None
+
+
+def callable_target(F, fn, c, depth=0):
+    from core import peel_identity
+    if depth > 6:
+        return None
+    c = peel_identity(c)
+    while c[0] in ("ref", "deref") and len(c) >= 2 and isinstance(c[1], tuple):
+        c = c[1]
+    if c[0] == "agg" and c[1] in F.fns and F.fns[c[1]].kind == "Closure":
+        cl = F.fns[c[1]]
+        tgt, a = call_target(F, cl, cl.origin_local(0), depth + 1)
+        return tgt if a == ("param", 2) else None
+    if c[0] == "fnconst":
+        return ultimate_callee(F, c[1])
+    if c[0] == "param":
+        sites = [(g, t) for g in F.fns.values() for b, t in g.calls() if t.get("rpath") == fn.name and t["res"] == "item"]
+        tg = {callable_target(F, g, g.op_origin(t["args"][c[1] - 1]), depth + 1) for g, t in sites if len(t["args"]) >= c[1]}
+        return next(iter(tg)) if len(tg) == 1 else None
+    if c[0] == "field" and c[1] == ("env",):
+        cc = closure_captures(F, fn.name)
+        if cc and c[2] in cc[1]:
+            return callable_target(F, cc[0], cc[1][c[2]], depth + 1)
+    return None
 
 
 def ultimate_callee(F, name, depth=0):
